@@ -42,6 +42,8 @@ pub trait Family: 'static + Sized + Send + Sync {
     /// PUBLISH with topic "t", QoS 0, no properties and the given payload
     fn publish_with_payload(payload: Vec<u8>) -> Self::Packet;
     fn type_index(p: &Self::Packet) -> usize;
+    /// sized constructions that only exist in one family (see sized.rs)
+    fn build_sized(kind: u64, typ: usize, target: usize) -> Option<Self::Packet>;
     /// every invariant-bearing field of a packet
     fn walk(p: &Self::Packet) -> Vec<crate::walk::Field<'_>>;
     const FIELD_LABELS: &'static [&'static str];
@@ -159,6 +161,9 @@ impl Family for V3 {
     }
     fn from_exp(e: &crate::mutate::ExpErr) -> Option<Self::Error> {
         e.v3()
+    }
+    fn build_sized(_kind: u64, _typ: usize, _target: usize) -> Option<Self::Packet> {
+        None
     }
     fn walk(p: &Self::Packet) -> Vec<crate::walk::Field<'_>> {
         crate::walk::fields_v3(p)
@@ -287,6 +292,9 @@ impl Family for V5 {
     }
     fn from_exp(e: &crate::mutate::ExpErr) -> Option<Self::Error> {
         e.v5()
+    }
+    fn build_sized(kind: u64, typ: usize, target: usize) -> Option<Self::Packet> {
+        crate::sized::build_v5(kind, typ, target)
     }
     fn walk(p: &Self::Packet) -> Vec<crate::walk::Field<'_>> {
         crate::walk::fields_v5(p)
